@@ -210,13 +210,32 @@ theorem deliverParked_idlAll (m : M) (p : Parked) (h : IdlAll P m.1) : IdlAll P 
     | exact h
     | exact runWorkers_idlAll _ _ (handlePieceMessage_idlAll _ _ _ _ _ _ h)
 
+theorem hmdStart_idls (m : M) : (hmdStart m).1.idls = m.1.idls ∨ (hmdStart m).1.idls = [] := by
+  unfold hmdStart
+  split
+  · simp only [onSt_fst]; exact stop_idls _ _
+  · left; simp only [onSt_fst]; split <;> simp
+
+/-- Whatever `parseInfo` says about the downloaded info dictionary, no metadata download is left. -/
+theorem hmdAdopt_idls (m : M) : (hmdAdopt m).1.idls = [] := by
+  unfold hmdAdopt
+  dsimp only
+  repeat' split
+  all_goals first
+    | (simp only [onSt_fst]; rcases stop_idls ({ m.1 with idls := [] } : St) true with h | h <;> rw [h])
+    | (rcases hmdStart_idls (onSt (onSt m fun s => { s with idls := [] }) fun s => { s with info := true, metaDone := true })
+         with h | h <;> rw [h] <;> rfl)
+
+theorem hmdAdopt_idlAll (m : M) : IdlAll P (hmdAdopt m).1 := IdlAll.of_nil (hmdAdopt_idls m)
+
 theorem handleMetadataData_idlAll (m : M) (k i len : Nat) (g : Bool) (h : IdlAll P m.1) :
     IdlAll P (handleMetadataData m k i len g).1 := by
-  unfold handleMetadataData
-  dsimp only
+  rw [handleMetadataData_eq]
   split
   · exact h
   · next d hd =>
+    unfold hmdBlock
+    dsimp only
     have hmap : ∀ d' : IDl, d'.size = d.size →
         IdlAll P ({ m.1 with idls := m.1.idls.map fun x => if x.k = k then d' else x } : St) := by
       intro d' hs x hx
@@ -239,12 +258,7 @@ theorem handleMetadataData_idlAll (m : M) (k i len : Nat) (g : Bool) (h : IdlAll
     split
     · refine hcl _ ((hmap { d with pending := d.pending - 1, blocks := d.blocks.set i (some g) } rfl).of_eq ?_)
       simp
-    split
-    · simp only [onSt_fst]
-      exact stop_idlAll _ _ (IdlAll.of_nil rfl)
-    · refine IdlAll.of_nil ?_
-      simp only [onSt_fst]
-      split <;> simp
+    exact hmdAdopt_idlAll _
 
 theorem handleMetadataReject_idlAll (m : M) (k : Nat) (h : IdlAll P m.1) :
     IdlAll P (handleMetadataReject m k).1 := by
